@@ -61,8 +61,15 @@ THEOREMS = ["ElfioVerif.C02.layouts_eq_spec", "ElfioVerif.C02.shdr_fields_eq_spe
             "ElfioVerif.RoundTrip.wellFormed_of_holds",
             "ElfioVerif.RoundTrip.reload_of_holds",
             "ElfioVerif.Compose.saved_wellFormed",
-            "ElfioVerif.Compose.reload_reports_saved"]
-EXTRA_IMPORTS = ["ElfioVerif.Props.Compose"]
+            "ElfioVerif.Compose.reload_reports_saved",
+            "ElfioVerif.LoadedTables.of_load", "ElfioVerif.LoadedTables.secResident_ready",
+            "ElfioVerif.LoadedTables.segResident_ready",
+            "ElfioVerif.ComposeTables.loaded_section_ready", "ElfioVerif.ComposeTables.cstrAt_eq_strAt",
+            "ElfioVerif.ComposeTables.strings_reports_spec", "ElfioVerif.ComposeTables.symbols_reports_spec",
+            "ElfioVerif.ComposeTables.reloc_reports_spec", "ElfioVerif.ComposeTables.dynamic_reports_spec",
+            "ElfioVerif.ComposeTables.notes_reports_spec", "ElfioVerif.ComposeTables.segment_notes_reports_spec",
+            "ElfioVerif.ComposeTables.array_reports_spec", "ElfioVerif.ComposeTables.versym_reports_spec"]
+EXTRA_IMPORTS = ["ElfioVerif.Props.Compose", "ElfioVerif.Props.ComposeTables"]
 SITES = ["conv", "is_sect_in_seg", "load_s", "sec32_load", "sec64_load", "seg32_load", "seg64_load"]
 RULE = ("well-formed images from the independent encoder tools/elfspec.py (random models: 1-9 sections, 0-4 "
         "segments, full-width field values, arbitrary table placement/order/gaps, overlapping segments, entry "
